@@ -883,6 +883,17 @@ def race_instrument(omp_text):
         body = t[bs:be]
         for dm in re.finditer(r'(?<![\w])(?:const\s+)?(?:unsigned\s+|long\s+|short\s+)*(?:int|long|float|double|char|short)\s*\*\s*(?:const\s+)?(\w+)\s*(?:=|;)', body):
             tracked.add(dm.group(1))
+        # a block-scope `static` declared inside a parallel loop is ONE object shared by all threads: hoist it to function
+        # scope (same lifetime for one kernel call), where it is tracked like every other shared local
+        first = body.find('verif_region_begin')
+        if first >= 0:
+            hoisted = []
+            def _hoist(mm):
+                hoisted.append(mm.group(2)); return mm.group(1)
+            region0 = re.sub(r'(\n[ \t]*)static\s+((?:const\s+)?(?:unsigned\s+|long\s+|short\s+)*(?:int|long|float|double|char|short)\b[^;\n]*;)', _hoist, body[first:])
+            if hoisted:
+                info.setdefault('static_in_parallel_loop', []).extend(hoisted)
+                body = body[:1] + '\n' + '\n'.join(hoisted) + body[1:first] + region0
         # function-scope declarations before the first parallel region: shared by all threads
         first = body.find('verif_region_begin')
         head = body[:first if first >= 0 else 0]
